@@ -1,7 +1,9 @@
 pub mod gen;
 pub mod hx;
+pub mod inflight;
 pub mod menu;
 pub mod model;
+pub mod parse;
 pub mod probes;
 pub mod props;
 pub mod real;
@@ -30,6 +32,32 @@ macro_rules! with_n {
                 $body
             }
             other => panic!("edge capacity {other} is not instantiated"),
+        }
+    };
+}
+
+/// Dispatch on any edge capacity 1..=16 (only light-weight code is instantiated 16 times).
+#[macro_export]
+macro_rules! with_any_n {
+    ($n:expr, $N:ident, $body:block) => {
+        match $n {
+            1 => { const $N: usize = 1; $body }
+            2 => { const $N: usize = 2; $body }
+            3 => { const $N: usize = 3; $body }
+            4 => { const $N: usize = 4; $body }
+            5 => { const $N: usize = 5; $body }
+            6 => { const $N: usize = 6; $body }
+            7 => { const $N: usize = 7; $body }
+            8 => { const $N: usize = 8; $body }
+            9 => { const $N: usize = 9; $body }
+            10 => { const $N: usize = 10; $body }
+            11 => { const $N: usize = 11; $body }
+            12 => { const $N: usize = 12; $body }
+            13 => { const $N: usize = 13; $body }
+            14 => { const $N: usize = 14; $body }
+            15 => { const $N: usize = 15; $body }
+            16 => { const $N: usize = 16; $body }
+            other => panic!("edge capacity {other} is outside 1..=16"),
         }
     };
 }
